@@ -159,6 +159,13 @@ pub fn run(cfg: &Cfg) {
         round_trip::<MetadataWrapper>(&mut sink, "MetadataWrapper", &meta);
         for k in layout.keys.values() {
             round_trip::<in_toto::crypto::PublicKey>(&mut sink, "PublicKey", k);
+            // the key description against Model/KeyJson.lean: as written, and mutated
+            let kj = serde_json::to_value(k).unwrap();
+            crate::c16_doc::key_case(&mut sink, &kj, "valid");
+            for _ in 0..2 {
+                let m = crate::c16_doc::mutate(&kj, &mut r);
+                crate::c16_doc::key_case(&mut sink, &m, "mutated");
+            }
         }
         for st in &layout.steps {
             round_trip::<in_toto::models::step::Step>(&mut sink, "Step", st);
